@@ -145,6 +145,7 @@ let () =
                    let cfg = List.sort compare (List.map (fun (k, v) -> (int_of_pos k, str_value v)) cfg) in
                    let c = String.concat " " (List.map (fun (k, v) -> "(" ^ string_of_int k ^ " " ^ v ^ ")") cfg) in
                    print_string ("done (" ^ b ^ ") (" ^ c ^ ")\n"))
+          | L [A "wf"; p] -> print_string (if wf_proc (proc p) then "wf\n" else "illformed\n")
           | _ -> print_string "error bad-job\n"
         with Failure m -> print_string ("error " ^ m ^ "\n")
            | Stack_overflow -> print_string "error stack-overflow\n");
